@@ -49,6 +49,10 @@ pub enum Site {
     ElemEnter,
     /// element evaluation returned (`ok` tells how)
     ElemExit { ok: bool },
+    /// about to draw from the document PRNG
+    RngDraw,
+    /// about to evaluate one attribute value (variables and expressions)
+    AttrEval,
 }
 
 pub type Callback = Box<dyn FnMut(Site)>;
@@ -133,6 +137,11 @@ pub(crate) fn elem_exit(context: &TransformerContext, ok: bool) {
 
 pub(crate) fn rng_tick() {
     STATE.with(|s| s.borrow_mut().probe.rng_calls += 1);
+    call(Site::RngDraw);
+}
+
+pub(crate) fn attr_eval() {
+    call(Site::AttrEval);
 }
 
 /// As `transform_stream()`, additionally returning the `Probe` of the run,
